@@ -274,3 +274,69 @@ prop("C06", level="exploration",
            "finished; distinct by (case, side, index, timing); distinct_sets.side_x_timing = (side, timing) pairs exercised (18 possible)."),
      min_nontrivial=dict(quick=300, thorough=4000),
      assumptions=_fs_assume)
+
+
+# ---------------------------------------------------------------- mq engine: C15 C16 C17
+_mq_assume = ["peermanager + messagequeue + allocator (+ responseassembler) are wired exactly as impl.New wires them; the network is a fault-injecting fake at the MessageNetwork interface",
+              "quiescence = busy counters zero, no queued builders, no queue between Shutdown() and exit, logical clock stable over 5 probes"]
+
+prop("C15", level="fault_enumeration",
+     stages=[dict(pkg="mq", test="TestLedger", sub="ledger", race=True, vary_gomaxprocs=True,
+                  cases=dict(quick=1500, thorough=20000), timeout=3600)],
+     technique="runtime monitoring: conservation ledger at the messagequeue.Allocator boundary (wrapper around the real allocator: reserved - released per peer) checked at every idle point, over response operations driven through the real responseassembler with enumerated send/connect/sender failures, retry exhaustion and disconnects; Go race detector",
+     level_text=("Response operations (blocks incl. > 512 KiB to force message splits, extension data, statuses, 1-4 requests per peer, first send held so "
+                 "that later messages queue up) are queued through the real responseassembler/peermanager/messagequeue; faults are placed at send index j "
+                 "(once / until retries are exhausted), at connect, at sender creation, or as a disconnect. At the idle point every peer's accounted memory "
+                 "(real allocator and ledger) must be zero, no release may exceed what was reserved, and block bytes on the wire never exceed bytes reserved."),
+     level_note="Data queued into a queue that is already shutting down is a recorded known finding (shared with C16).",
+     rule=("One evaluation = one (operation plan, fault kind, fault position, retries, hold) scenario. Non-trivial = executed to an idle point and "
+           "decided; distinct by scenario; distinct_sets.fault_kinds lists the fault kinds hit."),
+     min_nontrivial=dict(quick=500, thorough=8000),
+     min_counters=dict(injected_send_failures=dict(quick=100, thorough=1500), cases_with_message_split=dict(quick=50, thorough=800)),
+     assumptions=_mq_assume)
+
+prop("C16", level="exploration",
+     stages=[dict(pkg="mq", test="TestQueue", sub="queue", race=True, vary_gomaxprocs=True,
+                  cases=dict(quick=1000, thorough=20000), timeout=3600)],
+     technique="runtime monitoring: exactly-once checker over Subscriber events - every build carries a unique id in the message's block-data metadata and must be covered by exactly one Sent/Error event delivered to its request's subscriber - under concurrent producers, injected send/connect failures, retry exhaustion, connection flaps and a widened queue-shutdown window; Go race detector",
+     level_text=("2-6 producer goroutines build messages for 1-3 peers through the real peermanager/messagequeue while the script injects send failures, "
+                 "retry exhaustion, connect / sender failures and Connected/Disconnected flaps; a third of the runs pin a delay between a queue's "
+                 "decision to shut down and its shutdown callback. At quiescence every build id must appear in exactly one terminal event of its "
+                 "request's subscriber; zero is accepted only under the documented scrub rule (an Error for the same request was delivered after the build began)."),
+     level_note="Builds that land in a queue which has already begun shutting down are a recorded known finding.",
+     rule=("One evaluation = one concurrent scenario (10-50 builds). Non-trivial = executed to quiescence and every build decided; distinct by scenario. "
+           "counters.builds_started_inside_a_queue_shutdown_window = builds that began while a queue of that peer was between Shutdown() and exit."),
+     min_nontrivial=dict(quick=400, thorough=8000),
+     min_counters=dict(builds_started_inside_a_queue_shutdown_window=dict(quick=5, thorough=100), error_events=dict(quick=50, thorough=1000)),
+     assumptions=_mq_assume)
+
+prop("C17", level="exploration",
+     stages=[dict(pkg="mq", test="TestQueue", sub="queue", race=True, vary_gomaxprocs=True,
+                  cases=dict(quick=1000, thorough=20000), timeout=3600)],
+     technique="runtime monitoring: queue liveness from wrapped factory events (created / Startup / Shutdown / shutdown callback) checked at quiescent points against the peer table, plus a happens-before FIFO checker over unique build ids in the wire log; Go race detector",
+     level_text=("Same executions as C16, different monitor: at the final quiescent point each peer has at most one started-and-not-exited queue, it is the "
+                 "one in the peer table, no queue is still live after Shutdown(), and no queue outlives the peer's last disconnect when nothing was queued "
+                 "since; two builds for one peer ordered by happens-before (return before call) must not leave in the opposite order."),
+     level_note="Liveness is checked at quiescent points only (the overlap between removal from the table and Shutdown() is legitimate for liveness); re-ordering across that overlap is a recorded known finding.",
+     rule=("One evaluation = one concurrent scenario with 0-5 connection flaps. Non-trivial = executed to quiescence; distinct by scenario. "
+           "counters.queues_created / wire_messages describe what was observed."),
+     min_nontrivial=dict(quick=400, thorough=8000),
+     min_counters=dict(queues_created=dict(quick=1000, thorough=20000)),
+     assumptions=_mq_assume)
+
+
+# ---------------------------------------------------------------- wire engine: C11 C12
+prop("C11", level="exploration",
+     stages=[dict(pkg="wire", test="TestRoundTrip", sub="roundtrip", race=True,
+                  cases=dict(quick=5000, thorough=100000), timeout=3600)],
+     technique="runtime monitoring: round-trip oracle - generated well-formed messages through the real ToNet / FromNet / FromMsgReader and structural equivalence (map order insensitive, nil == Null) of everything decoded, including multi-message streams and the three extension codecs",
+     level_text=("Generated messages (0-5 requests of each type, all 14 status codes, 0-50 metadata entries over the 4 actions, extensions with null / bytes / "
+                 "string / int / bool / float / link / nested values, 0-20 blocks over CID v0/v1 x 7 codecs x every multihash function usable here incl. "
+                 "identity and truncated digests, empty blocks, extreme priorities) are encoded and decoded; streams of 1-8 messages are read back through "
+                 "one msgio reader and must end with EOF; cid sets, skip counts and dedup keys must decode to the values encoded."),
+     level_note="Cancel requests are compared on (id, type), updates on (id, type, extensions): that is all those constructors carry.",
+     rule=("One evaluation = one stream of 1-8 generated messages. Non-trivial = encoded, decoded and compared; distinct by stream. "
+           "distinct_sets.cid_kinds / hash_functions_used list the CID shapes actually used."),
+     min_nontrivial=dict(quick=2000, thorough=40000),
+     min_counters=dict(multi_message_streams=dict(quick=500, thorough=10000)),
+     assumptions=["well-formed = constructible through the message constructors with dag-cbor-encodable values"])
